@@ -531,8 +531,14 @@ def run(ctx):
         G = _types.new_class(f"GT{next(_serial)}", (env.PaneBase, t.Generic[TV]), {},
                              lambda ns: ns.update({'__annotations__': {'x': TV}, '__module__': __name__}))
         a, b, v = rng.choice(((int, float, 1), (float, complex, 1.5), (str, pathlib.PurePosixPath, 'a/b'), (bool, int, True), (int, fractions.Fraction, 3)))
-        kind = rng.choice(('union', 'optional-union', 'list-of-union', 'literal'))
-        if kind == 'union':
+        kind = rng.choice(('union', 'optional-union', 'list-of-union', 'literal', 'same-named-classes', 'same-named-classes'))
+        if kind == 'same-named-classes':
+            # two different classes that print alike (made by one factory): a key built from repr() would conflate them
+            def unit(ft):
+                return type('Unit', (env.PaneBase,), {'__annotations__': {'v': ft}, '__module__': __name__})
+            args = [unit(a), unit(b)]
+            v = {'v': v}
+        elif kind == 'union':
             args = [t.Union[a, b], t.Union[b, a]]
         elif kind == 'optional-union':
             args = [t.Union[a, b, None], t.Union[b, a, None]]
